@@ -78,8 +78,7 @@ variable {R : Type} [CommRing R]
 
 /-- **potrf.**  `A` a zero-based `n×n` view that the adaptor accepts (unit leading stride, or unit inner stride),
     contiguous or padded, `uplo` either triangle; under LAPACK's contract for the call made:
-    (1) the returned view designates `A`'s own elements and has `r = n` or `info − 1` rows — and `r` columns in the
-        `stride(A) == 1` branch but ALL `n` columns in the row-major branch (that is what `A({0, r})` is);
+    (1) the returned view is the leading `r×r` block of `A` (its own elements), `r = n` or `info − 1`, in both branches;
     (2) the selected LOGICAL triangle of the leading `r×r` block holds `T` with `TᵀT = A` (`upper`) resp. `TTᵀ = A` (`lower`)
         in the view's own index space, for both storage orientations;
     (3) only elements of that logical triangle of the view are written. -/
@@ -92,7 +91,7 @@ theorem potrf_orientation (uplo : Filling) (A : View) (d0 d1 : Dim) (n : Int) (h
     let T := fun (p q : Nat) => mem' (A.addr [p, q])
     let A0 := fun (p q : Nat) => mem (A.addr [p, q])
     (0 ≤ r ∧ r ≤ n) ∧
-    (ret.exts = (if A.stride0 = 1 then [Ext.norm ⟨0, r⟩, Ext.norm ⟨0, r⟩] else [Ext.norm ⟨0, r⟩, ⟨0, n⟩])) ∧
+    (ret.exts = [Ext.norm ⟨0, r⟩, Ext.norm ⟨0, r⟩]) ∧
     (∀ idx, InBox ret.exts idx → ret.addr idx = A.addr idx) ∧
     (uplo = .upper → ∀ i j : Nat, i ≤ j → (j : Int) < r → sumTo (i + 1) (fun k => T k i * T k j) = A0 i j) ∧
     (uplo = .lower → ∀ i j : Nat, j ≤ i → (i : Int) < r → sumTo (j + 1) (fun k => T i k * T j k) = A0 i j) ∧
@@ -117,7 +116,7 @@ theorem potrf_orientation (uplo : Filling) (A : View) (d0 d1 : Dim) (n : Int) (h
     have hretEq : ret = A.paren [Arg.rng 0 r, Arg.rng 0 r] := by
       simp only [ret, potrfResult]; rw [if_pos hb, hrs]
     obtain ⟨⟨b1, b2⟩, _⟩ := leading_block A n r hwf hext hr
-    refine ⟨hr, by rw [hretEq, if_pos hb]; exact b1, by rw [hretEq, b1]; exact b2, ?_, ?_, ?_⟩
+    refine ⟨hr, by rw [hretEq]; exact b1, by rw [hretEq, b1]; exact b2, ?_, ?_, ?_⟩
     · intro hu i j hij hj
       subst hu
       have := hU (by decide) i j hij hj
@@ -152,10 +151,10 @@ theorem potrf_orientation (uplo : Filling) (A : View) (d0 d1 : Dim) (n : Int) (h
     have hr : 0 ≤ r ∧ r ≤ n := by simp only [r, potrfOrder]; split <;> omega
     have hcm : ∀ i j : Nat, colMajor A.base d0.stride i j = A.addr [(j : Int), (i : Int)] := by
       intro i j; rw [haddr, hd1]; simp only [colMajor]; omega
-    have hretEq : ret = A.paren [Arg.rng 0 r] := by
+    have hretEq : ret = A.paren [Arg.rng 0 r, Arg.rng 0 r] := by
       simp only [ret, potrfResult]; rw [if_neg hb, hsz]
-    obtain ⟨_, ⟨b1, b2⟩⟩ := leading_block A n r hwf hext hr
-    refine ⟨hr, by rw [hretEq, if_neg hb]; exact b1, by rw [hretEq, b1]; exact b2, ?_, ?_, ?_⟩
+    obtain ⟨⟨b1, b2⟩, _⟩ := leading_block A n r hwf hext hr
+    refine ⟨hr, by rw [hretEq]; exact b1, by rw [hretEq, b1]; exact b2, ?_, ?_, ?_⟩
     · intro hu i j hij hj
       subst hu
       have := hL (by decide) j i hij hj
@@ -245,7 +244,7 @@ theorem gesvd_reconstructs (AA UU ss VV : View) (a0 a1 u0 u1 v0 v1 sd : Dim) (p 
 end
 
 /-- **geqrf.**  For a zero-based `p×q` view with unit inner stride (row-major, contiguous or padded; this precondition is
-    only a COMMENTED-OUT assertion in geqrf.hpp:40), the arguments denote the `q×p` column-major matrix `aaᵀ`, element by
+    asserted by geqrf.hpp:40 since the fix commit), the arguments denote the `q×p` column-major matrix `aaᵀ`, element by
     element inside the view; they are legal for LAPACK exactly when the rows of the view do not overlap. -/
 theorem geqrf_arguments (aa tau : View) (d0 d1 : Dim) (p q : Int) (hp : 0 < p) (hq : 0 < q)
     (hlay : aa.lay = [d0, d1]) (hwf : aa.lay.WF) (hext : aa.exts = [⟨0, p⟩, ⟨0, q⟩]) (hin : aa.stride1 = 1) :
@@ -262,7 +261,7 @@ theorem geqrf_arguments (aa tau : View) (d0 d1 : Dim) (p q : Int) (hp : 0 < p) (
   · rw [hc]; simp only; omega
 
 /-- without the unit inner stride the same arguments do NOT denote the view: LAPACK's element (1,0) is the cell right
-    after the first element, which is not the view's `[0][1]` — geqrf accepts such a view silently (no live assertion) -/
+    after the first element, which is not the view's `[0][1]` — which is why geqrf asserts the unit inner stride -/
 theorem geqrf_needs_unit_inner_stride (aa tau : View) (d0 d1 : Dim) (p q : Int) (hp : 0 < p) (hq : 0 < q)
     (hlay : aa.lay = [d0, d1]) (hwf : aa.lay.WF) (hext : aa.exts = [⟨0, p⟩, ⟨0, q⟩]) (hin : aa.stride1 ≠ 1) :
     colMajor (geqrfCall aa tau).a (geqrfCall aa tau).lda 1 0 ≠ aa.addr [0, 1] := by
